@@ -34,7 +34,9 @@ VARIABLES snd,      \* completed sends: sequence of [v, c, r, ok, p]   (c/r: cal
           lp,       \* per thread: <<call line, return line>> of its latest completed poll
           rw        \* [on: atomic operations are recorded in this run; open: threads that are, right now, between the update of
                     \*  used_streams_count and the end of the in-place rebuild of the live-listener list (create_stream_id /
-                    \*  report_stream_dropped .. sync_vacant_and_used_streams)]
+                    \*  report_stream_dropped .. sync_vacant_and_used_streams); synced: threads whose current create / drop has
+                    \*  already finished its rebuild -- the recorded finding is about the counter being updated BEFORE the list is
+                    \*  rewritten: a counter update that comes after the rebuild opens no window of that finding]
 
 vars == <<snd, cur, lis, adr, parked, drv, cancelled, held, resv, churn, lp, rw>>
 tvars == <<vars, l, bad>>
@@ -46,13 +48,13 @@ LiveAt0(k) == [s \in Ls |-> IF s < k THEN [NoLis EXCEPT !.st = "live"] ELSE NoLi
 
 Init0 == /\ snd = <<>> /\ cur = [p \in Procs |-> NoCur] /\ lis = LiveAt0(0) /\ adr = {}
          /\ parked = [p \in Procs |-> FALSE] /\ drv = [p \in Procs |-> -1] /\ cancelled = 0 /\ held = 0 /\ resv = 0 /\ churn = 0
-         /\ rw = [on |-> FALSE, open |-> {}] /\ lp = [p \in Procs |-> <<0, 0>>]
+         /\ rw = [on |-> FALSE, open |-> {}, synced |-> {}] /\ lp = [p \in Procs |-> <<0, 0>>]
 TraceInit == Init0 /\ TBInit
 
 TReset == /\ Ev.k = "reset"
           /\ snd' = <<>> /\ cur' = [p \in Procs |-> NoCur] /\ lis' = LiveAt0(Ev.x.streams) /\ adr' = {}
           /\ parked' = [p \in Procs |-> FALSE] /\ drv' = [p \in Procs |-> -1] /\ cancelled' = 0 /\ held' = 0 /\ resv' = 0 /\ churn' = 0
-          /\ rw' = [on |-> ("ops" \in DOMAIN Ev.x /\ Ev.x.ops), open |-> {}] /\ lp' = [p \in Procs |-> <<0, 0>>]
+          /\ rw' = [on |-> ("ops" \in DOMAIN Ev.x /\ Ev.x.ops), open |-> {}, synced |-> {}] /\ lp' = [p \in Procs |-> <<0, 0>>]
 
 SendOps == {"send", "send_with", "send_async", "send_reserved"}
 Range(s) == {s[i] : i \in 1..Len(s)}
@@ -69,7 +71,8 @@ TCall == /\ Ev.k = "call" /\ ~IsNopCall
          /\ churn' = IF Ev.x.op \in {"create", "create_if_room", "drop_stream"} THEN churn + 1 ELSE churn
          /\ cancelled' = IF Ev.x.op = "cancel_all" /\ cancelled = 0 THEN l ELSE cancelled
          /\ drv' = IF Ev.x.op = "drive" THEN [drv EXCEPT ![P] = Ev.x.s] ELSE drv
-         /\ UNCHANGED <<snd, adr, parked, held, resv, rw, lp>>
+         /\ rw' = [rw EXCEPT !.synced = @ \ {P}]          \* a new operation of this thread: no list rebuild of it is behind us yet
+         /\ UNCHANGED <<snd, adr, parked, held, resv, lp>>
 
 \* the send (completed or in progress) that carries value v, as [c, r, p, done, ok]
 SendOf(v) == IF \E i \in 1..Len(snd) : snd[i].v = v /\ snd[i].ok
@@ -135,6 +138,7 @@ TRet ==
 
 \* the window in which the live-listener list is inconsistent (only seen when atomic operations are recorded)
 RwOpens == Ev.k = "op" /\ Ev.fld = "used_streams_count" /\ ((Ev.fn = "create_stream_id" /\ Ev.o = "fa") \/ (Ev.fn = "report_stream_dropped" /\ Ev.o = "fs"))
+           /\ P \notin rw.synced
 RwCloses == Ev.k = "op" /\ Ev.fn = "sync_vacant_and_used_streams" /\ Ev.fld = "streams_lock" /\ Ev.o = "st"
 
 TNote == \/ /\ Ev.k = "park" /\ parked' = [parked EXCEPT ![P] = TRUE]
@@ -146,7 +150,7 @@ TNote == \/ /\ Ev.k = "park" /\ parked' = [parked EXCEPT ![P] = TRUE]
             /\ cur' = [p \in Procs |-> IF cur[p].op = "send" THEN [cur[p] EXCEPT !.ch = TRUE] ELSE cur[p]]     \* every send in progress overlaps it
             /\ UNCHANGED <<snd, lis, adr, parked, drv, cancelled, held, resv, churn, lp>>
          \/ /\ RwCloses
-            /\ rw' = [rw EXCEPT !.open = @ \ {P}]
+            /\ rw' = [rw EXCEPT !.open = @ \ {P}, !.synced = @ \cup {P}]
             /\ UNCHANGED <<snd, cur, lis, adr, parked, drv, cancelled, held, resv, churn, lp>>
          \/ /\ Ev.k \in {"op", "wake", "panic", "suspended", "slept"} /\ ~RwOpens /\ ~RwCloses /\ UNCHANGED vars
 
